@@ -204,6 +204,7 @@ impl PartialEq for Cnt {
 
 pub fn disarm_all() {
     similar::verif::set_clock(None);
+    similar::verif::set_now(None);
     similar::verif::set_swap_repair(false);
     similar::verif::set_hash_seed(Some(0));
     similar::verif::set_scramble(None);
@@ -223,7 +224,7 @@ pub struct ClockState {
 pub fn arm_clock(expire_at: u64) -> Rc<ClockState> {
     let st = Rc::new(ClockState::default());
     let st2 = st.clone();
-    similar::verif::set_clock(Some(Box::new(move || {
+    similar::verif::set_clock(Some(Box::new(move |_deadline| {
         let i = st2.probes.get();
         st2.probes.set(i + 1);
         let exceeded = i >= expire_at;
@@ -257,4 +258,39 @@ impl PartialEq<Lo> for Hi {
     fn eq(&self, o: &Lo) -> bool {
         self.0 == o.0 as u64
     }
+}
+
+// ---- virtual TIME (value-aware clock) --------------------------------------------------------
+
+thread_local! {
+    static ORIGIN: std::time::Instant = std::time::Instant::now() + std::time::Duration::from_secs(10_000);
+}
+
+/// origin of the virtual time line on this thread (far enough in the real future that an
+/// unhooked comparison with the real clock never expires)
+pub fn vt_origin() -> std::time::Instant {
+    ORIGIN.with(|o| *o)
+}
+
+/// the instant "tick t" of the virtual time line (ticks are seconds; `half` adds 500 ms)
+pub fn vt(t: u64, half: bool) -> std::time::Instant {
+    vt_origin() + std::time::Duration::from_millis(t * 1000 + if half { 500 } else { 0 })
+}
+
+/// Arms the value-aware virtual clock: the i-th deadline probe happens at virtual instant
+/// `vt(i)`, and "exceeded" is answered by comparing that instant with the deadline actually
+/// passed down to the probe.  "now" (used to turn a relative timeout into a deadline) is the
+/// virtual instant of the next probe.  A deadline of `vt(k) - 500 ms` therefore expires exactly
+/// at probe k.
+pub fn arm_virtual_time() -> Rc<ClockState> {
+    let st = Rc::new(ClockState::default());
+    let st2 = st.clone();
+    similar::verif::set_clock(Some(Box::new(move |deadline| {
+        let i = st2.probes.get();
+        st2.probes.set(i + 1);
+        vt(i, false) > deadline
+    })));
+    let st3 = st.clone();
+    similar::verif::set_now(Some(Box::new(move || vt(st3.probes.get(), false))));
+    st
 }
